@@ -7,7 +7,7 @@ set -u
 PATCH=$(readlink -f "$1"); ID=$2; TIER=${3:-quick}; BASE=${4:-}
 S=$(mktemp -d /tmp/bppmut.XXXXXX)
 trap 'rm -rf "$S"' EXIT
-mkdir -p "$S/r" && cp -r /repo/src /repo/test /repo/CMakeLists.txt /repo/cmake /repo/package.cmake.in /repo/Doxyfile "$S/r/" 2>/dev/null
+mkdir -p "$S/r" && cp -r /repo/src /repo/test /repo/CMakeLists.txt /repo/cmake /repo/package.cmake.in /repo/Doxyfile /repo/LICENSES /repo/*.txt /repo/*.license /repo/README.md /repo/ChangeLog /repo/bpp-core.spec "$S/r/" 2>/dev/null
 ( cd "$S/r" && patch -p1 -s < "$PATCH" ) || { echo "PATCH FAILED"; exit 3; }
 if [ "$BASE" = "--baseline" ]; then
   ( cmake -G Ninja -S "$S/r" -B "$S/b" -DCMAKE_BUILD_TYPE=RelWithDebInfo >/dev/null && cmake --build "$S/b" -j16 >/dev/null && ctest --test-dir "$S/b" -j8 --timeout 900 2>&1 | tail -3 ) || { echo "BASELINE FAILED on mutant"; exit 4; }
